@@ -416,10 +416,23 @@ var c09ArgKinds = []c09ArgKind{
 	{"descendant-schema-nodeid", []string{"refine"}, []string{"a", "a/b", "p:a/q:b"}, func(s string) string { return verdict(yang.IsDescendantNodeid(s)) }},
 	{"fraction-digits", []string{"fraction-digits"}, []string{"1", "2", "9", "10", "18"}, func(s string) string { return verdict(yang.IsFractionDigits(s)) }},
 	{"yang-version", []string{"yang-version"}, []string{"1"}, func(s string) string { return verdict(s == "1") }},
-	{"pattern", []string{"pattern"}, []string{"a*", "[a-z]+", "(ab|cd)?", "[0-9]{1,3}", "\\d+", "a.b"}, func(s string) string {
+	{"pattern", []string{"pattern"}, []string{"a*", "[a-z]+", "(ab|cd)?", "[0-9]{1,3}", "\\d+", "a.b", "a", "ab\\", "x+y"}, func(s string) string {
 		// only clearly broken expressions are asserted to be rejected, and a safe subset to be accepted
+		if n := len(s) - len(strings.TrimRight(s, "\\")); n%2 == 1 {
+			return "reject" // a backslash at the very end escapes nothing
+		}
 		if strings.ContainsAny(s, "\\") {
 			return "unasserted"
+		}
+		// a quantifier with nothing in front of it to repeat
+		for i := 0; i < len(s); i++ {
+			if c := s[i]; c == '[' {
+				break // (inside a class these are ordinary characters: left to the scan below)
+			} else if c == '?' && i > 0 && s[i-1] == '(' {
+				return "unasserted" // "(?" opens a group with flags in the regular expression library used: not a subject here
+			} else if (c == '*' || c == '+' || c == '?') && (i == 0 || s[i-1] == '(' || s[i-1] == '|') {
+				return "reject"
+			}
 		}
 		depth := 0
 		inClass := false
@@ -512,6 +525,10 @@ func c09ArgCases() []c09ArgCase {
 	var out []c09ArgCase
 	for _, k := range c09ArgKinds {
 		muts := c09Mutations(k.valid)
+		if k.name == "pattern" {
+			// (the mutations leave out every string with a backslash in it)
+			muts = append(muts, "a\\", "[0-9]+\\", "\\", "a\\\\\\", "*a", "+", "?abc", "(*a)", "a|*b", "a|+", "(?)", "\\d+\\")
+		}
 		for _, kw := range k.kw {
 			if kw == "enum-skip" {
 				continue
